@@ -362,9 +362,11 @@ def chk_similarity(col, case):
 def _clip_rows(col, op, case, rows, sizes_of_rows, got):
     for (a, b), S, (ga, gb) in zip(rows, sizes_of_rows, got):
         if a > S or b < 0:
-            # the interval has no base in common with [0,S) and does not touch it: only "inside the contig" is claimed
-            col.check(0 <= ga <= gb <= S, op + ":interval-outside-contig-not-brought-inside", case,
-                      "[%d,%d) on a contig of size %d became [%d,%d)" % (a, b, S, ga, gb))
+            # The interval has no base in common with [0,S) and does not touch it.  The property quantifies over intervals
+            # ON a contig; an interval that lies entirely beyond it has no bases to keep, and the statement does not say what
+            # clipping should make of it.  An earlier version of this check demanded 0 <= start' <= stop' <= S here, which is
+            # more than the statement says (DESIGN.md, "false alarms corrected"), so nothing is claimed for such rows.
+            continue
         else:
             col.check(0 <= ga <= gb <= S, op + ":not-inside-contig", case, "[%d,%d) size %d -> [%d,%d)" % (a, b, S, ga, gb))
             col.check((ga, gb) == (max(a, 0), min(b, S)), op + ":not-the-bases-inside-the-contig", case,
